@@ -51,6 +51,7 @@ structure Obs where
   sdRet : Bool               -- some ShutdownAndWait has returned
   stopEv : Bool              -- the stop is known to have taken effect (`sdret` or `stopseen`)
   afterStop : List Nat       -- BackgroundWorker calls that began after that
+  callLive : List (Nat × List Nat)  -- per BackgroundWorker call: the workers that were live when it began
   lastWait : Option Int      -- the order the shutdown waited for most recently
   minCancel : Option Int     -- the lowest order among the live workers cancelled so far
   runSnap : Bool             -- some Run has copied the WaitGroups
@@ -58,7 +59,7 @@ structure Obs where
   deriving Repr
 
 def Obs.init : Obs :=
-  { live := [], sdRet := false, stopEv := false, afterStop := [], lastWait := none, minCancel := none,
+  { live := [], sdRet := false, stopEv := false, afterStop := [], callLive := [], lastWait := none, minCancel := none,
     runSnap := false, lateAdd := false }
 
 def findLive (l : List W) (i : Nat) : Option W := l.find? (fun w => w.id == i)
@@ -69,7 +70,9 @@ def optMin (m : Option Int) (x : Int) : Option Int :=
   | some y => some (if x < y then x else y)
 
 def upd (o : Obs) : Ev → Obs
-  | .bwcall c _ _ => if o.stopEv then { o with afterStop := c :: o.afterStop } else o
+  | .bwcall c _ _ =>
+    let o := { o with callLive := (c, o.live.map W.id) :: o.callLive }
+    if o.stopEv then { o with afterStop := c :: o.afterStop } else o
   | .accept _ _ _ => { o with lateAdd := o.lateAdd || o.runSnap }
   | .start i name order => { o with live := ⟨i, name, order⟩ :: o.live }
   | .ret i => { o with live := o.live.filter (fun w => w.id != i) }
@@ -134,9 +137,17 @@ def chkNoAdd (o : Obs) : Ev → Bool
   | .start _ _ _ => !o.sdRet
   | _ => true
 
-/-- **A running name is refused**: a name is accepted only when no other worker of that name is live. -/
+/-- Was worker `i` live when call `c` began?  (A call whose beginning was not logged counts as "yes".) -/
+def liveAtCall (o : Obs) (c i : Nat) : Bool :=
+  match o.callLive.find? (fun p => p.1 == c) with
+  | some p => p.2.contains i
+  | none => true
+
+/-- **A running name is refused**: a name is never accepted while another worker of that name runs, i.e. no
+other worker of that name is live both when the accepted call began and when it returned.  (In the model the
+acceptance is a single instant and no such worker is live at that instant at all.) -/
 def chkRefused (o : Obs) : Ev → Bool
-  | .accept _ name inst => o.live.all (fun w => w.name != name || w.id == inst)
+  | .accept c name inst => o.live.all (fun w => w.name != name || w.id == inst || !liveAtCall o c w.id)
   | _ => true
 
 /-- Implementation logs only: nothing hung and nothing panicked. -/
@@ -168,9 +179,14 @@ def failed (tr : List Ev) : List String :=
   (if refusedOk tr then [] else ["refused"]) ++
   (if noCrashOk tr then [] else ["crash"])
 
-def verdict (tr : List Ev) : String :=
-  match failed tr with
+def showVerdict : List String → String
   | [] => "accept"
   | l => "reject " ++ ",".intercalate l
+
+def verdict (tr : List Ev) : String := showVerdict (failed tr)
+
+/-- The verdict over the clauses that are theorems of the model (everything but `runwait`, which the code
+does not satisfy: `C20_statement`, `C20_run_wait_witness`). -/
+def verdictProved (tr : List Ev) : String := showVerdict ((failed tr).filter (· != "runwait"))
 
 end Hive.Daemon
